@@ -6,7 +6,7 @@
      COverlap  two parsed prefixes, cidrsOverlap's verdict
    and the model must compute the same.  p_per_addr (an unexported Go field) is not compared. *)
 From Coq Require Import List NArith Bool.
-From Verif Require Export Model.Cfg.
+From Verif Require Export Model.Cfg Model.CfgFull.
 Import ListNotations.
 Local Open Scope N_scope.
 
@@ -15,10 +15,12 @@ Inductive ccase :=
 | CToConfig (id : N) (r : resources) (res : option pools_out)
 | CSorted (id : N) (inp out : list N)
 | CParse (id : N) (a : addr) (res : option (list prefix))
-| COverlap (id : N) (a b : prefix) (res : bool).
+| COverlap (id : N) (a b : prefix) (res : bool)
+| CFull (id : N) (m : vmode) (fr : fresources) (res : option fconfig)        (* toConfig, whole Config *)
+| CFullFor (id : N) (m : vmode) (fr : fresources) (res : option fconfig).    (* config.For, whole Config *)
 
 Definition case_id (c : ccase) : N :=
-  match c with CFor i _ _ | CToConfig i _ _ | CSorted i _ _ | CParse i _ _ | COverlap i _ _ _ => i end.
+  match c with CFor i _ _ | CToConfig i _ _ | CSorted i _ _ | CParse i _ _ | COverlap i _ _ _ | CFull i _ _ _ | CFullFor i _ _ _ => i end.
 
 Definition lN_eqb := list_eqb N.eqb.
 Definition opt_eqb {A} (e : A -> A -> bool) (a b : option A) : bool :=
@@ -42,6 +44,13 @@ Definition out_eqb (a b : pools_out) : bool :=
   lN_eqb (po_bysel a) (po_bysel b).
 
 Definition id_iter (l : list pool) : list pool := l.
+Definition bfd_eqb (a b : bfd) : bool :=
+  (b_name a =? b_name b) && oN_eqb (b_rx a) (b_rx b) && oN_eqb (b_tx a) (b_tx b) && oN_eqb (b_detect a) (b_detect b) &&
+  oN_eqb (b_echoint a) (b_echoint b) && oN_eqb (b_minttl a) (b_minttl b) && Bool.eqb (b_echo a) (b_echo b) &&
+  Bool.eqb (b_passive a) (b_passive b).
+Definition fconfig_eqb (a b : fconfig) : bool :=
+  out_eqb (fc_pools a) (fc_pools b) && list_eqb peer_eqb (fc_peers a) (fc_peers b) &&
+  list_eqb bfd_eqb (fc_bfds a) (fc_bfds b) && (fc_extras a =? fc_extras b).
 
 Definition case_ok (c : ccase) : bool :=
   match c with
@@ -50,6 +59,8 @@ Definition case_ok (c : ccase) : bool :=
   | CSorted _ i o => lN_eqb (sortN i) o
   | CParse _ a res => opt_eqb (list_eqb prefix_eqb) (parse_addr a) res
   | COverlap _ a b res => Bool.eqb (overlap a b) res
+  | CFull _ m fr res => opt_eqb fconfig_eqb (full_to_config ksorter id_iter m fr) res
+  | CFullFor _ m fr res => opt_eqb fconfig_eqb (full_for id_iter m fr) res
   end.
 
 Definition mismatches (cs : list ccase) : list N := map case_id (filter (fun c => negb (case_ok c)) cs).
